@@ -22,15 +22,19 @@ RadixLimbs(live, N, u, w, acc) == IF w = <<>> THEN acc
 \* c: g, start, msg, mode, enc_out, strand, ticks, gen_out ("ok" | exception), verts (as returned), fv_windows (booleans from the real
 \*    filter on each window of start k-mer + strand), fv_strand, fv_full (booleans from the real whole-sequence check)
 Judge(c) ==
-  LET i == c.g  N == NOf(i)  k == Gs[i].k  ret == Rets[i]  live == Lives[i]
+  LET i == c.g  N == NOf(i)  k == Gs[i].k
+      \* C04 speaks about the graph generation RETURNED: walk, degrees, vertex count are taken from it (c.ilive); the specification's
+      \* retained set is used for the conformance note only
+      live == IF c.ilive # <<>> THEN LiveFn(c.ilive) ELSE Lives[i]
+      ret == IF c.ilive # <<>> THEN {u \in 0..(N - 1) : live[u] # {}} ELSE Rets[i]
       cfg == CfgOf(Gs[i].cfg)
       L == Len(c.msg)
       full == Kmer(c.start, k) \o c.strand
       wins == [j \in 1..(Len(full) - k + 1) |-> SubSeq(full, j, j + k - 1)]
       winOK(w) == IF Gs[i].src = "cfg" THEN WindowPredicate(cfg, w) ELSE ValueOf(w) \in MaskOf(i)
       walk == IsWalk(live, N, c.start, c.strand)
-  IN IF ret = {} \/ c.start \notin ret \/ (c.mode = "fast" /\ \E u \in ret : Cardinality(live[u]) = 3) THEN <<"precondition-false">>
-     ELSE (IF c.gen_out # "ok" \/ ToSet(c.verts) # ret THEN <<"conformance:generated-graph-differs">> ELSE <<>>)
+  IN IF c.gen_out # "ok" \/ ret = {} \/ c.start \notin ret \/ (c.mode = "fast" /\ \E u \in ret : Cardinality(live[u]) = 3) THEN <<"precondition-false">>
+     ELSE (IF c.gen_out # "ok" \/ ToSet(c.verts) # Rets[i] \/ live # Lives[i] THEN <<"conformance:generated-graph-differs">> ELSE <<>>)
        \o (IF c.enc_out = "budget" \/ c.ticks > L * Cardinality(ret) + 1 THEN <<"termination-bound">> ELSE <<>>)
        \o (IF c.enc_out \notin {"ok", "budget"} THEN <<"encode-raises">> ELSE <<>>)
        \o (IF c.enc_out = "ok" /\ ~walk THEN <<"not-a-walk">> ELSE <<>>)
